@@ -442,7 +442,7 @@ impl<'a> Compiler<'a> {
                     .iter()
                     .find(|(import, _)| *import == prefix)
                 {
-                    // namespace.alias.suffix
+                    // namespace.alias.suffix (`super.` segments of the alias walk the namespace up)
                     let (super_depth, s) = super_depth(alias);
                     if super_depth > self.current_namespace.len() {
                         return Err(self.error(CompilationErrorPayload::SuperLimitReached));
@@ -453,7 +453,7 @@ impl<'a> Compiler<'a> {
                         .iter()
                         .take(self.current_namespace.len() - super_depth)
                         .flat_map(|x| [x.as_ref(), "."])
-                        .chain([alias, ".", s.unwrap_or(suffix)].iter().copied())
+                        .chain([s.unwrap_or(alias), ".", suffix].iter().copied())
                         .collect::<String>();
 
                     to = jump_table.get(&name);
